@@ -576,6 +576,13 @@ fn exec_once(ctx: &Ctx, dir: &Path, cmd: &Cmd, timeout: Duration) -> Result<Outc
     let t0 = Instant::now();
     let mut child = c.spawn().map_err(|e| he(format!("spawn: {e}")))?;
     let pid = child.id();
+    // A runaway allocation in the code under test (an endless loop that grows a Vec) must end in
+    // that process's allocation failure, not in the host's OOM killer picking a victim. Set from
+    // outside right after the spawn (keeps std's fast posix_spawn path).
+    unsafe {
+        let lim = libc::rlimit { rlim_cur: 3 << 30, rlim_max: 3 << 30 };
+        libc::prlimit(pid as libc::pid_t, libc::RLIMIT_AS, &lim, std::ptr::null_mut());
+    }
     watch()
         .lock()
         .unwrap()
